@@ -204,7 +204,13 @@ func (o *objectImpl) SetProperty(name value.Value, newValue value.Value) error {
 	if err != nil {
 		return fmt.Errorf("cannot set property: %s", err)
 	}
-	return o.signalHandler.UpdateProperty(id, sig, data)
+	// the value is stored: the write succeeded. A subscriber which
+	// cannot be notified (broken connection) does not make it fail.
+	err = o.signalHandler.UpdateProperty(id, sig, data)
+	if err != nil {
+		log.Printf("property %s: notification error: %s", nameStr, err)
+	}
+	return nil
 }
 
 func (o *objectImpl) saveProperty(name string, newValue value.Value) error {
